@@ -137,6 +137,7 @@ def spec_rl_hist(rec):
     lim, black, white = {}, set(), set()
     prev = init
     undone_once = set()
+    epoch_since_prev = False
 
     def try_accept(d, x, commit):
         """returns True when the rate limiter lets the packet through; commit applies the ghost accept"""
@@ -181,6 +182,7 @@ def spec_rl_hist(rec):
             if epd != 0 and int(op["t"]) > eps + epd:
                 epn += 1
                 eps += epd
+                epoch_since_prev = True
                 sup = dict((d, int(v)) for d, v in op["sup"])
                 for p, l in list(lim.items()):
                     if l.hours != 0 and epn % l.hours == 0:
@@ -258,7 +260,7 @@ def spec_rl_hist(rec):
             continue
         if want is not None and cls != want:
             return "op %d (%s): outcome class %s, the quota rule requires %s (packet %s)" % (i, k, cls, want, op.get("pk"))
-        if k in ("recv", "recvfwd") and cls == 1:
+        if k in ("recv", "recvfwd") and cls == 1 and not epoch_since_prev:
             if (ob["lims"], ob["ps"], ob["pr"]) != (prev["lims"], prev["ps"], prev["pr"]):
                 return "op %d: a receive answered by an error acknowledgement changed the rate-limit state" % i
         for p, o in zip(paths, ob["lims"]):
@@ -277,6 +279,7 @@ def spec_rl_hist(rec):
             if int(o[5]) != l.cv:
                 return "op %d: channel value of %s is %s, the supply at window start was %s" % (i, p, o[5], l.cv)
         prev = ob
+        epoch_since_prev = False
     return None
 
 
@@ -284,8 +287,280 @@ def nontrivial_rl(rec):
     return sum(1 for o in rec["in"]["ops"] if o["op"] != "block") >= 5
 
 
+# ================================================================================================ C43
+
+def _chnum(ch):
+    return int(ch.split("-")[1])
+
+
+class _PfmCtx:
+    """identifier tables of one pfm_hist record"""
+    def __init__(self, rec):
+        inp = rec["in"]
+        self.n = inp["n"]
+        self.labels = inp["labels"]
+        self.users = {}
+        chans = set()
+        for (i, a, j, bb) in inp["chans"]:
+            chans.add(a); chans.add(bb)
+        chans.add("channel-99")
+        self.chans = sorted(chans)
+        self.by_hash = None
+
+    def denom(self, s):
+        """coin denom string -> (trace as list of channel numbers, base id)"""
+        if s == "stake":
+            return ((), 1)
+        if self.by_hash is None:
+            self.by_hash = {}
+            traces = [()]
+            for _ in range(self.n + 1):
+                traces = [t + (c,) for t in traces for c in self.chans]
+                for t in traces:
+                    path = "/".join("transfer/" + c for c in t) + "/stake"
+                    self.by_hash["ibc/" + hashlib.sha256(path.encode()).hexdigest().upper()] = t
+        t = self.by_hash.get(s)
+        if t is None:
+            raise ValueError("denomination %s is not a trace over the channels of this world" % s)
+        return (tuple(_chnum(c) for c in t), 1)
+
+    def denom_t(self, s):
+        t, base = self.denom(s)
+        return "(mkD %s %d)" % (lst(t, lambda x: "%d" % x), base)
+
+    def acct(self, addr):
+        lab = self.labels.get(addr)
+        if lab is None:
+            return None
+        if lab[0] == "user":
+            if addr not in self.users:
+                self.users[addr] = len(self.users) + 1
+            return "(AUser %d)" % self.users[addr]
+        if lab[0] == "escrow":
+            return "(AEscrow %d)" % _chnum(lab[1])
+        inner = self.acct(lab[2])
+        if inner is None:
+            raise ValueError("override account of an unknown sender " + lab[2])
+        return "(AOverride %d %s)" % (_chnum(lab[1]), inner)
+
+    def oacct(self, addr):
+        t = self.acct(addr)
+        return "NA" if t is None else "(SA %s)" % t
+
+    def memo(self, m):
+        if m is None:
+            return "MNone"
+        return "(MFwd %s %d %d %s)" % (self.oacct(m["recv"]), _chnum(m["chan"]), m["retries"], self.memo(m["next"]))
+
+
+def _keep(d):
+    return d == "stake" or d.startswith("ibc/")
+
+
+def _clean(ob):
+    """drop denominations that no route ever moves (extra genesis coins of the test chains)"""
+    return [dict(bal=[e for e in co["bal"] or [] if _keep(e[1])], sup=[e for e in co["sup"] or [] if _keep(e[0])],
+                 esc=[e for e in co["esc"] or [] if _keep(e[0])], infl=co["infl"] or []) for co in ob]
+
+
+def _cleaned(rec):
+    inp = dict(rec["in"])
+    inp["init"] = _clean(inp["init"])
+    return dict(rec, **{"in": inp, "out": [_clean(ob) for ob in rec["out"]]})
+
+
+def enc_pfm_hist(rec):
+    rec = _cleaned(rec)
+    inp = rec["in"]
+    cx = _PfmCtx(rec)
+    n = inp["n"]
+    peers = []
+    chans_of = {i: [] for i in range(n)}
+    for (i, a, j, bb) in inp["chans"]:
+        peers.append("PR %d %d %d %d" % (i, _chnum(a), j, _chnum(bb)))
+        peers.append("PR %d %d %d %d" % (j, _chnum(bb), i, _chnum(a)))
+        chans_of[i].append(_chnum(a)); chans_of[j].append(_chnum(bb))
+    all_obs = [inp["init"]] + list(rec["out"])
+    # universe per chain: tracked accounts, denominations seen in any observation
+    accts = {i: set() for i in range(n)}
+    denoms = {i: set(["stake"]) for i in range(n)}
+    for ob in all_obs:
+        for i, co in enumerate(ob):
+            for (a, d, x) in co["bal"] or []:
+                accts[i].add(a); denoms[i].add(d)
+            for (d, x) in (co["sup"] or []) + (co["esc"] or []):
+                denoms[i].add(d)
+    # every labelled account is tracked on the chain(s) where it was observed; add accounts with no balance yet
+    for addr, lab in inp["labels"].items():
+        pass
+    def chain_obs(co):
+        return "(mkCO %s %s %s %s)" % (
+            lst(co["bal"] or [], lambda e: "BL %s %s %s" % (cx.acct(e[0]), cx.denom_t(e[1]), ZZ(e[2]))),
+            lst(co["sup"] or [], lambda e: "DZ %s %s" % (cx.denom_t(e[0]), ZZ(e[1]))),
+            lst(co["esc"] or [], lambda e: "DZ %s %s" % (cx.denom_t(e[0]), ZZ(e[1]))),
+            lst(co["infl"] or [], lambda k: "KY %d %s" % (_chnum(k.split("/")[0]), k.split("/")[2])))
+    routes = []
+    for rr, ob in zip(inp["routes"], rec["out"]):
+        r = rr["route"]
+        ops = ["RTransfer %d %s %d %s %s %s %s" % (r["chain"], cx.acct(r["sender"]), _chnum(r["chan"]), cx.denom_t(r["denom"]),
+                                                  ZZ(r["amt"]), cx.oacct(r["recv"]), cx.memo(r["memo"]))]
+        for (k, c, ch, seq) in rr["ops"]:
+            ops.append("%s %d %d %s" % ({"recv": "RRecv", "ack": "RAck", "timeout": "RTimeout"}[k], c, _chnum(ch), N(seq)))
+        spec = "(mkRS %d %s %d %s %s %s %s %s)" % (r["chain"], cx.acct(r["sender"]), _chnum(r["chan"]), cx.denom_t(r["denom"]), ZZ(r["amt"]),
+                                                   cx.oacct(r["recv"]), cx.memo(r["memo"]), lst(r["timeouts"], lambda k: "HO %d" % k))
+        routes.append("mkRR %s %s %s" % (lst(ops, str), spec, lst(ob, chain_obs)))
+    # tracked accounts per chain: all labelled addresses that ever appear, plus the escrow/override accounts of the chain
+    for i in range(n):
+        for (ci, a, cj, bb) in inp["chans"]:
+            pass
+    # accounts: every labelled address is compared on every chain where it can hold funds
+    univ = []
+    for i in range(n):
+        acc_terms = sorted(set(cx.acct(a) for a in inp["labels"] if _on_chain(inp, i, a, accts)))
+        univ.append("UV %d %s %s" % (i, lst(acc_terms, str), lst(sorted(denoms[i]), cx.denom_t)))
+    cfg = []
+    for i in range(n):
+        bals = [e for e in inp["init"][i]["bal"] if e[1] == "stake"]
+        cfg.append("CF %d %s %s" % (i, lst(chans_of[i], lambda x: "%d" % x), lst(bals, lambda e: "AZ %s %s" % (cx.acct(e[0]), ZZ(e[2])))))
+    return "PfmHist %s %s %s %s\n   %s" % (lst(peers, str), lst(cfg, str), lst(univ, str), lst(inp["init"], chain_obs),
+                                          "[" + ";\n    ".join(routes) + "]")
+
+
+def _on_chain(inp, i, addr, accts):
+    """is this labelled address an account of chain i: users by observation, escrow/override by their channel"""
+    lab = inp["labels"][addr]
+    if lab[0] == "user":
+        return addr in accts[i]
+    ch = lab[1]
+    for (ci, a, cj, bb) in inp["chans"]:
+        if (ci == i and a == ch) or (cj == i and bb == ch):
+            return True
+    return False
+
+
+def spec_pfm_hist(rec):
+    """C43 on the implementation's record, route by route at quiescence: all-or-nothing, nothing left on intermediate
+    chains' override accounts, no in-flight record, vouchers backed by escrow across every channel."""
+    inp = rec["in"]
+    cx = _PfmCtx(rec)
+    n = inp["n"]
+    labels = inp["labels"]
+    prev = inp["init"]
+
+    def tab(ob):
+        t = []
+        for co in ob:
+            t.append((dict(((a, d), int(x)) for a, d, x in co["bal"] or []), dict((d, int(x)) for d, x in co["sup"] or []),
+                      dict((d, int(x)) for d, x in co["esc"] or [])))
+        return t
+
+    def path_of(t):
+        return "/".join("transfer/channel-%d" % c for c in t) + "/stake" if t else "stake"
+
+    def coin_of(t):
+        return "stake" if not t else "ibc/" + hashlib.sha256(path_of(t).encode()).hexdigest().upper()
+
+    for ri, (rr, ob) in enumerate(zip(inp["routes"], rec["out"])):
+        r = rr["route"]
+        before, after = tab(prev), tab(ob)
+        where = "route %d (%s)" % (ri, rr.get("tag"))
+        # no in-flight record anywhere
+        for i, co in enumerate(ob):
+            if co["infl"]:
+                return "%s: in-flight records left on chain %d at quiescence: %s" % (where, i, co["infl"])
+        # override (intermediate receive) accounts hold nothing
+        for i in range(n):
+            for (a, d), x in after[i][0].items():
+                if labels.get(a, [""])[0] == "override" and x != 0:
+                    return "%s: override account %s on chain %d keeps %d %s" % (where, a, i, x, d)
+        # all-or-nothing
+        amt = int(r["amt"])
+        c0 = r["chain"]
+        sender_delta = after[c0][0].get((r["sender"], r["denom"]), 0) - before[c0][0].get((r["sender"], r["denom"]), 0)
+        unchanged = all(_nz(before[i][0]) == _nz(after[i][0]) and _nz(before[i][1]) == _nz(after[i][1]) and _nz(before[i][2]) == _nz(after[i][2])
+                        for i in range(n))
+        if not r["ok"]:
+            if not unchanged:
+                return "%s: the origin transfer failed but balances changed" % where
+        elif sender_delta == 0:
+            if not unchanged:
+                return "%s: the sender was refunded but some balance, voucher supply or total escrow did not return to its starting value" % where
+        elif sender_delta == -amt:
+            # exactly one user account somewhere gained exactly amt (the final receiver), nobody else gained
+            gains = []
+            for i in range(n):
+                for key in set(before[i][0]) | set(after[i][0]):
+                    dlt = after[i][0].get(key, 0) - before[i][0].get(key, 0)
+                    if dlt != 0 and labels.get(key[0], [""])[0] == "user" and not (i == c0 and key == (r["sender"], r["denom"])):
+                        gains.append((i, key, dlt))
+            if len(gains) != 1 or gains[0][2] != amt:
+                return "%s: sender debited %d but receiver credits are %s" % (where, amt, gains)
+        else:
+            return "%s: sender balance changed by %d, expected 0 or -%d" % (where, sender_delta, amt)
+        # conservation: escrow accounts = total escrow; voucher supply = tracked balances; escrow of a channel backs the
+        # voucher supply on the other side
+        for i in range(n):
+            bal, sup, esc = after[i]
+            for d, x in sup.items():
+                held = sum(v for (a, dd), v in bal.items() if dd == d)
+                if held != x:
+                    return "%s: chain %d supply of %s is %d but accounts hold %d" % (where, i, d, x, held)
+            dens = set(d for (_, d) in bal) | set(esc)
+            for d in dens:
+                in_escrow = sum(v for (a, dd), v in bal.items() if dd == d and labels.get(a, [""])[0] == "escrow")
+                if in_escrow != esc.get(d, 0):
+                    return "%s: chain %d total escrow of %s is %d but escrow accounts hold %d" % (where, i, d, esc.get(d, 0), in_escrow)
+        for (i, a, j, bb) in inp["chans"]:
+            for (x, cha, y, chb) in ((i, a, j, bb), (j, bb, i, a)):
+                ea = [ad for ad, lab in labels.items() if lab[0] == "escrow" and lab[1] == cha]
+                for (acc, d), v in after[x][0].items():
+                    if acc in ea and v != 0:
+                        t, _ = cx.denom(d)
+                        vd = coin_of((_chnum(chb),) + t)
+                        if after[y][1].get(vd, 0) != v:
+                            return ("%s: escrow of %s on chain %d holds %d %s but chain %d's supply of its voucher is %d"
+                                    % (where, cha, x, v, d, y, after[y][1].get(vd, 0)))
+        prev = ob
+    return None
+
+
+def enc_pfm_denom(rec):
+    port, ch, cport, cch, tr, base = rec["in"]
+    tr = tr or []
+    return "PfmDenom %s %s %s %s %s %s %s" % (hx(port), hx(ch), hx(cport), hx(cch), lst(tr, lambda h: "SH %s %s" % (hx(h[0]), hx(h[1]))),
+                                              hx(base), hx(rec["out"]))
+
+
+def spec_pfm_denom(rec):
+    """the forwarded denomination must be the coin denomination ICS-20 credits for that packet on this chain"""
+    port, ch, cport, cch, tr, base = [bytes.fromhex(x).decode() if isinstance(x, str) else x for x in rec["in"]]
+    tr = [(bytes.fromhex(h[0]).decode(), bytes.fromhex(h[1]).decode()) for h in (tr or [])]
+    if tr and tr[0] == (cport, cch):
+        tr2 = tr[1:]
+    else:
+        tr2 = [(port, ch)] + tr
+    if not tr2:
+        want = base
+    else:
+        path = "".join("%s/%s/" % h for h in tr2) + base
+        want = "ibc/" + hashlib.sha256(path.encode()).hexdigest().upper()
+    got = bytes.fromhex(rec["out"]).decode()
+    if got != want:
+        return "getDenomForThisChain(%s,%s,%s,%s,%s,%s) = %s; ICS-20 credits %s" % (port, ch, cport, cch, tr, base, got, want)
+
+
+def _nz(dct):
+    return dict((k, v) for k, v in dct.items() if v != 0)
+
+
+def nontrivial_pfm(rec):
+    return any(len(r["ops"]) >= 3 for r in rec["in"]["routes"])
+
+
 KINDS = {
     "rl_hist": dict(props=["C41"], enc=enc_rl_hist, spec=spec_rl_hist, exact=True, nontrivial=nontrivial_rl),
+    "pfm_hist": dict(props=["C43"], enc=enc_pfm_hist, spec=spec_pfm_hist, exact=True, nontrivial=nontrivial_pfm),
+    "pfm_denom": dict(props=["C43"], enc=enc_pfm_denom, spec=spec_pfm_denom, exact=True),
 }
 
 KNOWN = {}
